@@ -114,7 +114,9 @@ func run(c *core.Ctx) {
 		t1, k1 := kid()
 		t2, kk2 := kid()
 		t3, k3 := kid()
-		bad := func() string { return core.Pick(r, "past", "future", "zero", "one-second-ago", "inverted", "soon", "just-expired") }
+		bad := func() string {
+			return core.Pick(r, "past", "future", "zero", "one-second-ago", "inverted", "soon", "just-expired")
+		}
 		e := shimsim.CertSpec{ID: pool.ReserveID(), KeyID: k2, Window: bad(), KidText: t1, KidKind: k1}
 		e2 := shimsim.CertSpec{ID: pool.ReserveID(), KeyID: k, Window: bad(), KidText: t2, KidKind: kk2}
 		g := shimsim.CertSpec{ID: pool.ReserveID(), KeyID: k, Window: core.Pick(r, "current", "forever"), KidText: t3, KidKind: k3}
@@ -138,6 +140,38 @@ func run(c *core.Ctx) {
 		default:
 			p.Ops = []*shimsim.Op{refused(op(shimsim.OpSigners, 0), 1+r.Intn(2)), refused(sign(core.Pick(r, e.ID, e2.ID), 3), 1+r.Intn(2)), op(shimsim.OpDirectAdd, e2.ID),
 				refused(op(shimsim.OpSigners, 0), 1), op(shimsim.OpSigners, 0), sign(e2.ID, 2)}
+		}
+		plans = append(plans, p)
+	}
+	// a certificate lapses (or dawns) while it is held, and nothing else changes: the same identity list before and
+	// after, no additions or removals in between - only the clock moves.  In memory and in the agent, with longer-lived
+	// certificates beside it, in both modes.
+	for i, n := 0, c.N(8, 48); i < n; i++ {
+		k := uint64(1 + r.Intn(nk))
+		k2 := uint64(1 + (int(k)+r.Intn(nk-1))%nk)
+		p := &shimsim.Plan{Class: "lapses-while-held", NoUp: i%2 == 1, Comp: core.Pick(r, 0, 1, 2),
+			Data: map[uint64][]byte{1: []byte("data-1"), 2: []byte("data-2")}}
+		cert := func(key uint64, win string) shimsim.CertSpec {
+			t, kd := shimsim.GenKeyID(r)
+			return shimsim.CertSpec{ID: pool.ReserveID(), KeyID: key, Window: win, KidText: t, KidKind: kd}
+		}
+		h := cert(k, core.Pick(r, "lapse", "lapse", "dawn")) // the one whose status changes
+		g := cert(k2, core.Pick(r, "current", "forever"))    // a longer-lived one in the agent
+		h2 := cert(k2, core.Pick(r, "current", "lapse"))     // another hardware certificate
+		p.Certs = []shimsim.CertSpec{h, g, h2}
+		sign := func(b uint64, d uint64) *shimsim.Op { return &shimsim.Op{Kind: shimsim.OpSign, Blob: b, DataID: d} }
+		sleep := &shimsim.Op{Kind: shimsim.OpSleep, SleepMs: 4200}
+		switch i % 4 {
+		case 0, 1: // in memory
+			p.Initial = []uint64{k, k2, g.ID}
+			p.Ops = []*shimsim.Op{op(shimsim.OpAddHard, h.ID), op(shimsim.OpAddHard, h2.ID), op(shimsim.OpList, 0), op(shimsim.OpSigners, 0), sign(h.ID, 1),
+				sleep, op(shimsim.OpList, 0), op(shimsim.OpSigners, 0), sign(h.ID, 2), sign(h2.ID, 1), op(shimsim.OpList, 0)}
+		case 2: // in the agent
+			p.Initial = []uint64{k, k2, g.ID, h.ID}
+			p.Ops = []*shimsim.Op{op(shimsim.OpList, 0), op(shimsim.OpSigners, 0), sleep, op(shimsim.OpSigners, 0), op(shimsim.OpList, 0), sign(h.ID, 1)}
+		default: // both, and the first request after the edge is a signature
+			p.Initial = []uint64{k, k2, h.ID}
+			p.Ops = []*shimsim.Op{op(shimsim.OpAddHard, h2.ID), op(shimsim.OpList, 0), sleep, sign(h.ID, 1), sign(h2.ID, 2), op(shimsim.OpList, 0), op(shimsim.OpSigners, 0)}
 		}
 		plans = append(plans, p)
 	}
